@@ -728,13 +728,30 @@ theorem scalings_after_rescale (e1 e2 : Env K n p m) (hd : e2.data = e1.data) (k
     by rw [a5, b5, f5, g5, hd, hs.s_lb], by rw [a6, b6, f7, g7, hd, hs.zinv_lb],
     by rw [a7, b7, f6, g6, hd, hs.s_ub], by rw [a8, b8, f8, g8, hd, hs.zinv_ub]⟩
 
-/-- after `update_scalings` at an interior iterate with positive `ρ, δ`, a sparse back end's plain factorisation succeeds and the
+/-- what the lock-step argument needs from a back end's inner factorisation: it succeeds after a rescaling at an interior iterate
+    (C14 / C02), and what it returns solves the reduced system exactly (C14) -/
+structure GoodInner (e : Env K n p m) : Prop where
+  fac : ∀ (b : Bool) (s : NumState K n p m) (i : Info K), ConvInv e s i → ((realOps e).factor b ((realOps e).rescale s i)).2 = true
+  exact : ∀ (kb : KBlocks K n p m) (slv : SolveFn K n p m), (∀ a b : Fin n, kb.xx[a][b] = kb.xx[b][a]) → e.inner kb = some slv →
+    InnerExact e.be kb slv
+
+/-- every sparse formulation with any fill-reducing permutation qualifies -/
+theorem goodInner_sparse (e : Env K n p m) (perm : Vector (Fin (n + p + m)) (n + p + m)) (hperm : IsPerm perm)
+    (hsp : e.be.isDense = false) (hin : e.inner = innerLDLT e.be perm) (hP : ∀ x : Vec K n, 0 ≤ quad e.data.Psym x) : GoodInner e where
+  fac := factor_after_rescale e perm hperm hsp hin hP
+  exact := fun kb slv hxx h => innerLDLT_exact e.be perm hperm kb hxx slv (by rw [← hin]; exact h)
+
+/-- so does the dense back end (Cholesky of the fully reduced block) given an exact square root -/
+theorem goodInner_dense (e : Env K n p m) (sqrtF : K → K) (hsq : ExactSqrt sqrtF)
+    (hd : e.be = .dense) (hin : e.inner = innerLLT sqrtF) (hP : ∀ x : Vec K n, 0 ≤ quad e.data.Psym x) : GoodInner e where
+  fac := dense_factor_after_rescale e sqrtF hsq hd hin hP
+  exact := fun kb slv hxx h => by rw [hd]; exact innerLLT_exact sqrtF hsq kb hxx slv (by rw [← hin]; exact h)
+
+/-- after `update_scalings` at an interior iterate with positive `ρ, δ`, a good back end's plain factorisation succeeds and the
     state it leaves is `Factored` -/
-theorem factored_after_rescale (e : Env K n p m) (perm : Vector (Fin (n + p + m)) (n + p + m)) (hperm : IsPerm perm)
-    (hsp : e.be.isDense = false) (hin : e.inner = innerLDLT e.be perm)
-    (hP : ∀ x : Vec K n, 0 ≤ quad e.data.Psym x) (s : NumState K n p m) (i : Info K) (h : ConvInv e s i) :
+theorem factored_after_rescale (e : Env K n p m) (hg : GoodInner e) (s : NumState K n p m) (i : Info K) (h : ConvInv e s i) :
     Factored e.be e.data (KKT.regFactor e.be e.st.kkt e.data (kktScal e s.2 s.1 i.rho i.delta) false e.inner) := by
-  have hok := factor_after_rescale e perm hperm hsp hin hP false s i h
+  have hok := hg.fac false s i h
   obtain ⟨hcone, hcache, hρ, hδ, _⟩ := h
   obtain ⟨hcoh, _⟩ := C13.updateScalings_coherent e.be e.data s.2 i.rho i.delta s.1.s s.1.s_lb s.1.s_ub s.1.z s.1.z_lb s.1.z_ub hcache
   obtain ⟨f1, f2, f3, f4, f5, f6, f7, f8⟩ := us_fields e.be e.data s.2 i.rho i.delta s.1.s s.1.s_lb s.1.s_ub s.1.z s.1.z_lb s.1.z_ub
@@ -750,8 +767,7 @@ theorem factored_after_rescale (e : Env K n p m) (perm : Vector (Fin (n + p + m)
     | some slv =>
       have hf : (KKT.regFactor e.be e.st.kkt e.data k' false e.inner).fsol = some slv := by simp [KKT.regFactor, hs]
       refine ⟨slv, hf, ?_⟩
-      rw [hin] at hs
-      exact innerLDLT_exact e.be perm hperm k'.k (coherent_xx_symm e.be e.data k' hcoh) slv hs
+      exact hg.exact k'.k slv (coherent_xx_symm e.be e.data k' hcoh) hs
   · show 0 < k'.rho; rw [f1]; exact hρ
   · show 0 < k'.delta; rw [f2]; exact hδ
   · intro t; show 0 < k'.s[t]; rw [f3]; exact hcone.s t
@@ -761,23 +777,23 @@ theorem factored_after_rescale (e : Env K n p m) (perm : Vector (Fin (n + p + m)
   · intro a ha; show 0 < k'.s_ub[a]; rw [f6, C13.headUpd_get]; simp only [ha, if_true]; exact hcone.s_ub a ha
   · intro a ha; show 0 < k'.zinv_ub[a]; rw [f8, C13.headUpd_get]; simp only [ha, if_true]; exact one_div_pos.mpr (hcone.z_ub a ha)
 
-/-- the same problem handed to another sparse formulation / ordering -/
-def withBackend (e : Env K n p m) (be2 : Backend) (perm2 : Vector (Fin (n + p + m)) (n + p + m)) : Env K n p m :=
-  { e with be := be2, inner := innerLDLT be2 perm2 }
+/-- the same problem handed to another back end (formulation + inner factorisation) -/
+def withBackend (e : Env K n p m) (be2 : Backend) (in2 : Inner K n p m) : Env K n p m :=
+  { e with be := be2, inner := in2 }
 
 section wb
-variable (e : Env K n p m) (be2 : Backend) (perm2 : Vector (Fin (n + p + m)) (n + p + m))
-theorem wb_head (b : Bool) (w : Work K n p m) (i : Info K) : headInfo (withBackend e be2 perm2) b w i = headInfo e b w i := rfl
-theorem wb_reg (w : Work K n p m) (i : Info K) : regResiduals (withBackend e be2 perm2) w i = regResiduals e w i := rfl
-theorem wb_shift (w : Work K n p m) (i : Info K) : shiftOp (withBackend e be2 perm2) w i = shiftOp e w i := rfl
-theorem wb_flags (w : Work K n p m) (a b : Bool) : applyFlagsOp (withBackend e be2 perm2) w a b = applyFlagsOp e w a b := rfl
-theorem wb_pprox (w : Work K n p m) : primalProxInf (withBackend e be2 perm2) w = primalProxInf e w := rfl
-theorem wb_pinfR (w : Work K n p m) : primalInfR (withBackend e be2 perm2) w = primalInfR e w := rfl
-theorem wb_dprox (w : Work K n p m) : dualProxInf (withBackend e be2 perm2) w = dualProxInf e w := rfl
-theorem wb_dinfR (w : Work K n p m) : dualInfR (withBackend e be2 perm2) w = dualInfR e w := rfl
+variable (e : Env K n p m) (be2 : Backend) (in2 : Inner K n p m)
+theorem wb_head (b : Bool) (w : Work K n p m) (i : Info K) : headInfo (withBackend e be2 in2) b w i = headInfo e b w i := rfl
+theorem wb_reg (w : Work K n p m) (i : Info K) : regResiduals (withBackend e be2 in2) w i = regResiduals e w i := rfl
+theorem wb_shift (w : Work K n p m) (i : Info K) : shiftOp (withBackend e be2 in2) w i = shiftOp e w i := rfl
+theorem wb_flags (w : Work K n p m) (a b : Bool) : applyFlagsOp (withBackend e be2 in2) w a b = applyFlagsOp e w a b := rfl
+theorem wb_pprox (w : Work K n p m) : primalProxInf (withBackend e be2 in2) w = primalProxInf e w := rfl
+theorem wb_pinfR (w : Work K n p m) : primalInfR (withBackend e be2 in2) w = primalInfR e w := rfl
+theorem wb_dprox (w : Work K n p m) : dualProxInf (withBackend e be2 in2) w = dualProxInf e w := rfl
+theorem wb_dinfR (w : Work K n p m) : dualInfR (withBackend e be2 in2) w = dualInfR e w := rfl
 theorem wb_staged (b : Bool) (k1 k2 : KKT K n p m) (w : Work K n p m) (i : Info K)
-    (h : ∀ r old, solveOr (withBackend e be2 perm2) b k2 r old = solveOr e b k1 r old) :
-    stepNumOp (withBackend e be2 perm2) b k2 w i = stepNumOp e b k1 w i := by
+    (h : ∀ r old, solveOr (withBackend e be2 in2) b k2 r old = solveOr e b k1 r old) :
+    stepNumOp (withBackend e be2 in2) b k2 w i = stepNumOp e b k1 w i := by
   rw [stepNumOp_staged, stepNumOp_staged]
   unfold stepNumStaged
   simp only [h]
@@ -790,17 +806,16 @@ def LockR (e1 e2 : Env K n p m) (s1 s2 : NumState K n p m) (i : Info K) : Prop :
 def LockF (e1 e2 : Env K n p m) (s1 s2 : NumState K n p m) (i : Info K) : Prop :=
   LockR e1 e2 s1 s2 i ∧ Factored e1.be e1.data s1.2 ∧ Factored e2.be e1.data s2.2
 
-theorem realOps_lock (e : Env K n p m) (perm1 perm2 : Vector (Fin (n + p + m)) (n + p + m)) (hp1 : IsPerm perm1) (hp2 : IsPerm perm2)
-    (be2 : Backend) (hsp1 : e.be.isDense = false) (hsp2 : be2.isDense = false) (hin : e.inner = innerLDLT e.be perm1)
+theorem realOps_lock (e : Env K n p m) (be2 : Backend) (in2 : Inner K n p m) (g1 : GoodInner e) (g2 : GoodInner (withBackend e be2 in2))
     (hP : ∀ x : Vec K n, 0 ≤ quad e.data.Psym x)
     (hτ0 : 0 < e.st.tau) (hτ1 : e.st.tau < 1) (heps : 0 ≤ e.cs.machEps) (hft : 0 < e.st.regFinetuneLowerLimit) :
-    OpsLock e.st e.cs (realOps e) (realOps (withBackend e be2 perm2)) (LockR e (withBackend e be2 perm2)) (LockF e (withBackend e be2 perm2)) := by
-  have I1 := realOps_convInv e (factor_after_rescale e perm1 hp1 hsp1 hin hP) hτ0 hτ1 heps hft
-  have I2 := realOps_convInv (withBackend e be2 perm2) (factor_after_rescale (withBackend e be2 perm2) perm2 hp2 hsp2 rfl hP) hτ0 hτ1 heps hft
+    OpsLock e.st e.cs (realOps e) (realOps (withBackend e be2 in2)) (LockR e (withBackend e be2 in2)) (LockF e (withBackend e be2 in2)) := by
+  have I1 := realOps_convInv e g1.fac hτ0 hτ1 heps hft
+  have I2 := realOps_convInv (withBackend e be2 in2) g2.fac hτ0 hτ1 heps hft
   refine ⟨rfl, ?_, ?_, ?_, ?_, ?_, ?_, ?_, ?_, ?_, ?_⟩
   · intro b s s' i h
     obtain ⟨hw, hs, h1, h2⟩ := h
-    have e2 : (realOps (withBackend e be2 perm2)).head b s' i = (((headInfo e b s.1 i).1, s'.2), (headInfo e b s.1 i).2) := by
+    have e2 : (realOps (withBackend e be2 in2)).head b s' i = (((headInfo e b s.1 i).1, s'.2), (headInfo e b s.1 i).2) := by
       simp only [realOps, wb_head, hw]
     refine ⟨⟨?_, hs, I1.head b s i h1, ?_⟩, ?_⟩
     · rw [e2]; rfl
@@ -811,7 +826,7 @@ theorem realOps_lock (e : Env K n p m) (perm1 perm2 : Vector (Fin (n + p + m)) (
   · -- reg
     intro s s' i h
     obtain ⟨hw, hs, h1, h2⟩ := h
-    have e2 : (realOps (withBackend e be2 perm2)).reg s' i = (regResiduals e s.1 i, s'.2) := by
+    have e2 : (realOps (withBackend e be2 in2)).reg s' i = (regResiduals e s.1 i, s'.2) := by
       simp only [realOps, wb_reg, hw]
     refine ⟨?_, hs, I1.reg s i h1, ?_⟩
     · rw [e2]; rfl
@@ -825,7 +840,7 @@ theorem realOps_lock (e : Env K n p m) (perm1 perm2 : Vector (Fin (n + p + m)) (
   · -- shift
     intro s s' i h
     obtain ⟨hw, hs, h1, h2⟩ := h
-    have e2 : (realOps (withBackend e be2 perm2)).shift s' i = (((shiftOp e s.1 i).1, s'.2), (shiftOp e s.1 i).2) := by
+    have e2 : (realOps (withBackend e be2 in2)).shift s' i = (((shiftOp e s.1 i).1, s'.2), (shiftOp e s.1 i).2) := by
       simp only [realOps, wb_shift, hw]
     refine ⟨⟨?_, hs, I1.shift s i h1, ?_⟩, ?_⟩
     · rw [e2]; rfl
@@ -841,9 +856,9 @@ theorem realOps_lock (e : Env K n p m) (perm1 perm2 : Vector (Fin (n + p + m)) (
     obtain ⟨hw, hs, h1, h2⟩ := h
     obtain ⟨ok1, c1⟩ := I1.rescale false s i h1
     obtain ⟨ok2, c2⟩ := I2.rescale false s' i h2
-    have F1 := factored_after_rescale e perm1 hp1 hsp1 hin hP s i h1
-    have F2 := factored_after_rescale (withBackend e be2 perm2) perm2 hp2 hsp2 rfl hP s' i h2
-    have S := scalings_after_rescale e (withBackend e be2 perm2) rfl s.2 s'.2 s.1 i.rho i.delta false hs
+    have F1 := factored_after_rescale e g1 s i h1
+    have F2 := factored_after_rescale (withBackend e be2 in2) g2 s' i h2
+    have S := scalings_after_rescale e (withBackend e be2 in2) rfl s.2 s'.2 s.1 i.rho i.delta false hs
     refine ⟨ok1, ok2, ⟨?_, ?_, c1, c2⟩, F1, ?_⟩
     · exact hw
     · show SameScalings (KKT.regFactor _ _ _ (kktScal e s.2 s.1 _ _) false _) (KKT.regFactor _ _ _ (kktScal _ s'.2 s'.1 _ _) false _)
@@ -852,11 +867,11 @@ theorem realOps_lock (e : Env K n p m) (perm1 perm2 : Vector (Fin (n + p + m)) (
   · -- step
     intro s s' i it h
     obtain ⟨⟨hw, hs, h1, h2⟩, F1, F2⟩ := h
-    have hsolve := solveOr_agree e (withBackend e be2 perm2) rfl s.2 s'.2 hP F1 F2 hs
-    have hstep : stepNumOp (withBackend e be2 perm2) false s'.2 s'.1 { i with iter := it, factorRetires := 0 } =
+    have hsolve := solveOr_agree e (withBackend e be2 in2) rfl s.2 s'.2 hP F1 F2 hs
+    have hstep : stepNumOp (withBackend e be2 in2) false s'.2 s'.1 { i with iter := it, factorRetires := 0 } =
         stepNumOp e false s.2 s.1 { i with iter := it, factorRetires := 0 } := by
-      rw [hw]; exact wb_staged e be2 perm2 false s.2 s'.2 s.1 _ hsolve
-    have e2s : (realOps (withBackend e be2 perm2)).stepNum false s' { i with iter := it, factorRetires := 0 } =
+      rw [hw]; exact wb_staged e be2 in2 false s.2 s'.2 s.1 _ hsolve
+    have e2s : (realOps (withBackend e be2 in2)).stepNum false s' { i with iter := it, factorRetires := 0 } =
         (((stepNumOp e false s.2 s.1 { i with iter := it, factorRetires := 0 }).1, s'.2),
           (stepNumOp e false s.2 s.1 { i with iter := it, factorRetires := 0 }).2) := by
       simp only [realOps]; rw [hstep]
@@ -866,23 +881,23 @@ theorem realOps_lock (e : Env K n p m) (perm1 perm2 : Vector (Fin (n + p + m)) (
     refine ⟨rfl, rfl, hs, J1, J2⟩
 
 /-- **C10, the whole trajectory is independent of the formulation.** On a convex problem, in exact arithmetic and with iterative
-    refinement off, the main loop run with any sparse formulation and any fill-reducing ordering (`withBackend e be2 perm2`) passes
-    through the same iterates as the run with `e.be` / `perm1`: same final iterate and workspace, same diagnostics (`info`: status,
+    refinement off, the main loop run with any other back end whose inner factorisation is good (`GoodInner`: each sparse
+    formulation with any fill-reducing ordering, `goodInner_sparse`; the dense Cholesky back end, `goodInner_dense`) passes
+    through the same iterates as the run with `e.be` / `e.inner`: same final iterate and workspace, same diagnostics (`info`: status,
     iteration count, residuals, objectives, `ρ`, `δ`), same loop control, same returned status.  The two runs may start from
     different KKT objects as long as these carry the same scalings.  (Refinement stays off in both because no factorisation
     fails, `convex_never_numerics`.) -/
-theorem trajectories_agree (e : Env K n p m) (perm1 perm2 : Vector (Fin (n + p + m)) (n + p + m)) (hp1 : IsPerm perm1) (hp2 : IsPerm perm2)
-    (be2 : Backend) (hsp1 : e.be.isDense = false) (hsp2 : be2.isDense = false) (hin : e.inner = innerLDLT e.be perm1)
+theorem trajectories_agree (e : Env K n p m) (be2 : Backend) (in2 : Inner K n p m) (g1 : GoodInner e) (g2 : GoodInner (withBackend e be2 in2))
     (hP : ∀ x : Vec K n, 0 ≤ quad e.data.Psym x)
     (hτ0 : 0 < e.st.tau) (hτ1 : e.st.tau < 1) (heps : 0 ≤ e.cs.machEps) (hft : 0 < e.st.regFinetuneLowerLimit)
     (ls : LoopState K n p m) (kkt2 : KKT K n p m) (hr : ls.c.refineOn = false) (hs : SameScalings ls.kkt kkt2)
-    (h1 : ConvInv e (ls.w, ls.kkt) ls.info) (h2 : ConvInv (withBackend e be2 perm2) (ls.w, kkt2) ls.info) :
-    (mainLoop (withBackend e be2 perm2) { ls with kkt := kkt2 }).2 = (mainLoop e ls).2 ∧
-    (mainLoop (withBackend e be2 perm2) { ls with kkt := kkt2 }).1.w = (mainLoop e ls).1.w ∧
-    (mainLoop (withBackend e be2 perm2) { ls with kkt := kkt2 }).1.info = (mainLoop e ls).1.info ∧
-    (mainLoop (withBackend e be2 perm2) { ls with kkt := kkt2 }).1.c = (mainLoop e ls).1.c := by
-  have L := loopG_lock e.st e.cs (realOps e) (realOps (withBackend e be2 perm2)) _ _
-    (realOps_lock e perm1 perm2 hp1 hp2 be2 hsp1 hsp2 hin hP hτ0 hτ1 heps hft) ls.c (ls.w, ls.kkt) ls.info (ls.w, kkt2) hr ⟨rfl, hs, h1, h2⟩
+    (h1 : ConvInv e (ls.w, ls.kkt) ls.info) (h2 : ConvInv (withBackend e be2 in2) (ls.w, kkt2) ls.info) :
+    (mainLoop (withBackend e be2 in2) { ls with kkt := kkt2 }).2 = (mainLoop e ls).2 ∧
+    (mainLoop (withBackend e be2 in2) { ls with kkt := kkt2 }).1.w = (mainLoop e ls).1.w ∧
+    (mainLoop (withBackend e be2 in2) { ls with kkt := kkt2 }).1.info = (mainLoop e ls).1.info ∧
+    (mainLoop (withBackend e be2 in2) { ls with kkt := kkt2 }).1.c = (mainLoop e ls).1.c := by
+  have L := loopG_lock e.st e.cs (realOps e) (realOps (withBackend e be2 in2)) _ _
+    (realOps_lock e be2 in2 g1 g2 hP hτ0 hτ1 heps hft) ls.c (ls.w, ls.kkt) ls.info (ls.w, kkt2) hr ⟨rfl, hs, h1, h2⟩
   obtain ⟨l1, l2, l3, i, l4⟩ := L
   unfold mainLoop
   exact ⟨l3, l4.1, l2, l1⟩
@@ -897,19 +912,28 @@ variable {n p m : Nat}
 def retarget (s : Solver K n p m) (be2 : Backend) (kkt2 : KKT K n p m) : Solver K n p m := { s with be := be2, kkt := kkt2 }
 
 theorem env_retarget (cs : Consts K) (sqrtF : K → K) (s : Solver K n p m) (be2 : Backend) (kkt2 : KKT K n p m)
-    (perm1 perm2 : Vector (Fin (n + p + m)) (n + p + m)) (hsp2 : be2.isDense = false) :
-    Solver.env cs sqrtF (retarget s be2 kkt2) perm2 = withBackend (Solver.env cs sqrtF s perm1) be2 perm2 := by
-  simp only [Solver.env, withBackend, retarget, execInner, hsp2, Bool.false_eq_true, if_false]
+    (perm1 perm2 : Vector (Fin (n + p + m)) (n + p + m)) :
+    Solver.env cs sqrtF (retarget s be2 kkt2) perm2 = withBackend (Solver.env cs sqrtF s perm1) be2 (execInner sqrtF be2 perm2) := rfl
+
+/-- a back end the theorems below cover: a sparse formulation with a genuine permutation, or the dense one with an exact square root -/
+def BackendOk (sqrtF : K → K) (be : Backend) (perm : Vector (Fin (n + p + m)) (n + p + m)) : Prop :=
+  (be.isDense = false ∧ IsPerm perm) ∨ (be = .dense ∧ ExactSqrt sqrtF)
+
+theorem goodInner_of (e : Env K n p m) (sqrtF : K → K) (perm : Vector (Fin (n + p + m)) (n + p + m)) (hb : BackendOk sqrtF e.be perm)
+    (hin : e.inner = execInner sqrtF e.be perm) (hP : ∀ x : Vec K n, 0 ≤ quad e.data.Psym x) : GoodInner e := by
+  rcases hb with ⟨hsp, hperm⟩ | ⟨hd, hsq⟩
+  · exact goodInner_sparse e perm hperm hsp (by rw [hin]; simp only [execInner, hsp, Bool.false_eq_true, if_false]) hP
+  · exact goodInner_dense e sqrtF hsq hd (by rw [hin, hd]; simp only [execInner, Backend.isDense, if_true]) hP
 
 theorem ipBeforeShift_agree (cs : Consts K) (sqrtF : K → K) (s : Solver K n p m) (be2 : Backend) (kkt2' : KKT K n p m)
     (perm1 perm2 : Vector (Fin (n + p + m)) (n + p + m)) (w0 : Work K n p m) (k1 k2 : KKT K n p m)
     (hP : ∀ x : Vec K n, 0 ≤ quad s.data.Psym x)
     (h1 : Factored s.be s.data k1) (h2 : Factored be2 s.data k2) (hs : SameScalings k1 k2) :
-    ipBeforeShift cs (retarget s be2 kkt2') (withBackend (Solver.env cs sqrtF s perm1) be2 perm2) w0 k2 false =
+    ipBeforeShift cs (retarget s be2 kkt2') (withBackend (Solver.env cs sqrtF s perm1) be2 (execInner sqrtF be2 perm2)) w0 k2 false =
       ipBeforeShift cs s (Solver.env cs sqrtF s perm1) w0 k1 false := by
   rw [ipBeforeShift_eq, ipBeforeShift_eq]
   exact congrArg (ipFrom cs s.data w0)
-    (solveOr_agree (Solver.env cs sqrtF s perm1) (withBackend (Solver.env cs sqrtF s perm1) be2 perm2) rfl k1 k2 hP h1 h2 hs (ipRhs s.data) (ipOld w0))
+    (solveOr_agree (Solver.env cs sqrtF s perm1) (withBackend (Solver.env cs sqrtF s perm1) be2 (execInner sqrtF be2 perm2)) rfl k1 k2 hP h1 h2 hs (ipRhs s.data) (ipOld w0))
 
 /-- what `solve()` starts from (after an `update()` or an earlier `solve()`): slacks and multipliers at one, `ρ, δ` at their
     initial values — inside the cone, and the KKT object it factorises is the rescaled one -/
@@ -948,14 +972,14 @@ theorem solveTyped_of_factor (cs : Consts K) (sqrtF : K → K) (s : Solver K n p
   rw [initLoopG.eq_def]
   simp only [hfa, if_true, Bool.not_true, Bool.false_eq_true, if_false]
 
-/-- **C10 at the level of `solve()`: the answer does not depend on the sparse formulation or the ordering.** Take a solver object
-    with a sparse back end (`kktInitState = false`, refinement off, valid settings, scaled `P ⪰ 0`, caches in agreement with the
-    data) and the same object re-targeted at another sparse formulation with its own KKT object and its own fill-reducing
-    permutation.  In exact arithmetic `solve()` returns the same status, the same results workspace (`x, y, z, z_lb, z_ub, s, …`)
+/-- **C10 at the level of `solve()`: the answer does not depend on the back end, the formulation or the ordering.** Take a solver
+    object with any covered back end (`BackendOk`: dense with an exact square root, or one of the four sparse formulations with a
+    fill-reducing permutation; `kktInitState = false`, refinement off, valid settings, scaled `P ⪰ 0`, caches in agreement with
+    the data) and the same object re-targeted at any other covered back end with its own KKT object and its own permutation.  In exact arithmetic `solve()` returns the same status, the same results workspace (`x, y, z, z_lb, z_ub, s, …`)
     and the same `info` in both. -/
 theorem solve_backend_independent (cs : Consts K) (sqrtF : K → K) (s : Solver K n p m)
-    (perm1 perm2 : Vector (Fin (n + p + m)) (n + p + m)) (hp1 : IsPerm perm1) (hp2 : IsPerm perm2)
-    (be2 : Backend) (kkt2 : KKT K n p m) (hsp1 : s.be.isDense = false) (hsp2 : be2.isDense = false)
+    (perm1 perm2 : Vector (Fin (n + p + m)) (n + p + m)) (be2 : Backend) (kkt2 : KKT K n p m)
+    (hb1 : BackendOk sqrtF s.be perm1) (hb2 : BackendOk sqrtF be2 perm2)
     (hv : s.st.verify = true) (hτ1 : s.st.tau < 1) (hft : 0 < s.st.regFinetuneLowerLimit) (heps : 0 ≤ cs.machEps)
     (h15 : 1 ≤ cs.c1_5) (h05 : 0 < cs.c0_5)
     (hP : ∀ x : Vec K n, 0 ≤ quad s.data.Psym x)
@@ -968,10 +992,10 @@ theorem solve_backend_independent (cs : Consts K) (sqrtF : K → K) (s : Solver 
     (solveTyped cs sqrtF (retarget s be2 kkt2) perm2).1.w = (solveTyped cs sqrtF s perm1).1.w ∧
     (solveTyped cs sqrtF (retarget s be2 kkt2) perm2).1.info = (solveTyped cs sqrtF s perm1).1.info := by
   obtain ⟨hρ0, hδ0, hrl, hτ0⟩ := verify_facts s.st hv
-  have hin1 : (Solver.env cs sqrtF s perm1).inner = innerLDLT (Solver.env cs sqrtF s perm1).be perm1 := by
-    simp only [Solver.env, execInner, hsp1, Bool.false_eq_true, if_false]
-  have hE := env_retarget cs sqrtF s be2 kkt2 perm1 perm2 hsp2
+  have hE := env_retarget cs sqrtF s be2 kkt2 perm1 perm2
   have hP' : ∀ x : Vec K n, 0 ≤ quad (Solver.env cs sqrtF s perm1).data.Psym x := hP
+  have g1 : GoodInner (Solver.env cs sqrtF s perm1) := goodInner_of _ sqrtF perm1 hb1 rfl hP'
+  have g2 : GoodInner (withBackend (Solver.env cs sqrtF s perm1) be2 (execInner sqrtF be2 perm2)) := goodInner_of _ sqrtF perm2 hb2 rfl hP'
   obtain ⟨hst1, hpair1⟩ := solve_start_facts cs sqrtF s perm1 hv hc1 hki
   obtain ⟨hst2, hpair2⟩ := solve_start_facts cs sqrtF (retarget s be2 kkt2) perm2 hv hc2 hki
   rw [hE] at hst2 hpair2
@@ -980,14 +1004,13 @@ theorem solve_backend_independent (cs : Consts K) (sqrtF : K → K) (s : Solver 
   rw [hw0, hi0] at hst2 hpair2
   have hk2 : (retarget s be2 kkt2).kkt = kkt2 := rfl
   rw [hk2] at hst2 hpair2
-  have I1 := realOps_convInv (Solver.env cs sqrtF s perm1) (factor_after_rescale (Solver.env cs sqrtF s perm1) perm1 hp1 hsp1 hin1 hP') hτ0 hτ1 heps hft
-  have I2 := realOps_convInv (withBackend (Solver.env cs sqrtF s perm1) be2 perm2)
-    (factor_after_rescale (withBackend (Solver.env cs sqrtF s perm1) be2 perm2) perm2 hp2 hsp2 rfl hP') hτ0 hτ1 heps hft
+  have I1 := realOps_convInv (Solver.env cs sqrtF s perm1) g1.fac hτ0 hτ1 heps hft
+  have I2 := realOps_convInv (withBackend (Solver.env cs sqrtF s perm1) be2 (execInner sqrtF be2 perm2)) g2.fac hτ0 hτ1 heps hft
   obtain ⟨hfa1, hinv1⟩ := I1.rescale false _ _ hst1
   obtain ⟨hfa2, hinv2⟩ := I2.rescale false _ _ hst2
-  have F1 := factored_after_rescale (Solver.env cs sqrtF s perm1) perm1 hp1 hsp1 hin1 hP' _ _ hst1
-  have F2 := factored_after_rescale (withBackend (Solver.env cs sqrtF s perm1) be2 perm2) perm2 hp2 hsp2 rfl hP' _ _ hst2
-  have S := scalings_after_rescale (Solver.env cs sqrtF s perm1) (withBackend (Solver.env cs sqrtF s perm1) be2 perm2) rfl s.kkt kkt2
+  have F1 := factored_after_rescale (Solver.env cs sqrtF s perm1) g1 _ _ hst1
+  have F2 := factored_after_rescale (withBackend (Solver.env cs sqrtF s perm1) be2 (execInner sqrtF be2 perm2)) g2 _ _ hst2
+  have S := scalings_after_rescale (Solver.env cs sqrtF s perm1) (withBackend (Solver.env cs sqrtF s perm1) be2 (execInner sqrtF be2 perm2)) rfl s.kkt kkt2
     (solveStart cs sqrtF s perm1).1 (solveStart cs sqrtF s perm1).2.2.rho (solveStart cs sqrtF s perm1).2.2.delta false hss
   rw [← hpair1] at hfa1 hinv1
   rw [← hpair2] at hfa2 hinv2
@@ -1005,7 +1028,7 @@ theorem solve_backend_independent (cs : Consts K) (sqrtF : K → K) (s : Solver 
   rw [hr2, hr, hw0, hi0]
   -- name the two factorised KKT objects
   obtain ⟨k1, hk1⟩ : ∃ k, ((realOps (Solver.env cs sqrtF s perm1)).factor false ((solveStart cs sqrtF s perm1).1, (solveStart cs sqrtF s perm1).2.1)).1.2 = k := ⟨_, rfl⟩
-  obtain ⟨k2, hk2'⟩ : ∃ k, ((realOps (withBackend (Solver.env cs sqrtF s perm1) be2 perm2)).factor false
+  obtain ⟨k2, hk2'⟩ : ∃ k, ((realOps (withBackend (Solver.env cs sqrtF s perm1) be2 (execInner sqrtF be2 perm2))).factor false
       ((solveStart cs sqrtF s perm1).1, (solveStart cs sqrtF (retarget s be2 kkt2) perm2).2.1)).1.2 = k := ⟨_, rfl⟩
   have F1' : Factored s.be s.data k1 := by rw [← hk1, hpair1]; exact F1
   have F2' : Factored be2 s.data k2 := by rw [← hk2', hpair2]; exact F2
@@ -1013,7 +1036,7 @@ theorem solve_backend_independent (cs : Consts K) (sqrtF : K → K) (s : Solver 
   have C1 : C13.CachesOk s.be s.data k1 := by rw [← hk1]; exact hinv1.2.1
   have C2 : C13.CachesOk be2 s.data k2 := by rw [← hk2']; exact hinv2.2.1
   rw [hk1, hk2']
-  have hip : initialPoint cs (retarget s be2 kkt2) (withBackend (Solver.env cs sqrtF s perm1) be2 perm2)
+  have hip : initialPoint cs (retarget s be2 kkt2) (withBackend (Solver.env cs sqrtF s perm1) be2 (execInner sqrtF be2 perm2))
       (solveStart cs sqrtF s perm1).1 k2 (solveStart cs sqrtF s perm1).2.2 false =
       { initialPoint cs s (Solver.env cs sqrtF s perm1) (solveStart cs sqrtF s perm1).1 k1 (solveStart cs sqrtF s perm1).2.2 false with kkt := k2 } := by
     unfold initialPoint
@@ -1030,7 +1053,7 @@ theorem solve_backend_independent (cs : Consts K) (sqrtF : K → K) (s : Solver 
     · split <;> exact hr0
     · split <;> exact hd0
     · split <;> exact hl0
-  have T := trajectories_agree (Solver.env cs sqrtF s perm1) perm1 perm2 hp1 hp2 be2 hsp1 hsp2 hin1 hP' hτ0 hτ1 heps hft
+  have T := trajectories_agree (Solver.env cs sqrtF s perm1) be2 (execInner sqrtF be2 perm2) g1 g2 hP' hτ0 hτ1 heps hft
     (initialPoint cs s (Solver.env cs sqrtF s perm1) (solveStart cs sqrtF s perm1).1 k1 (solveStart cs sqrtF s perm1).2.2 false) k2 rfl
     (by rw [C04.initialPoint_kkt]; exact S')
     ⟨hcone, by rw [C04.initialPoint_kkt]; exact C1, hpos.1, hpos.2.1, hpos.2.2⟩
